@@ -50,6 +50,8 @@ func Exec(w []string) (answer string, mine bool) {
 		return seqExec(w), true
 	case "evt", "evtinv":
 		return evtExec(w), true
+	case "hs":
+		return hsExec(w), true
 	default:
 		return "", false
 	}
@@ -121,6 +123,14 @@ func Gen(r *vh.Rng, tier string, emit func(op, impl, class string, nontrivial bo
 	go func() {
 		defer close(evtDone)
 		evtRes = CollectEvt(evtScs, 6, &evtNotes)
+	}()
+	// 0c. connection set-up as a sequence of answers (hsseq.go)
+	hsScs := GenHs(vh.NewRng(r.U64()), tier)
+	var hsRes, hsNotes []string
+	hsDone := make(chan struct{})
+	go func() {
+		defer close(hsDone)
+		hsRes = CollectHs(hsScs, 4, &hsNotes)
 	}()
 	// 1. the extracted table, cell by cell
 	emit("dispsites", t.SitesLine(), "disp/sites", true)
@@ -229,6 +239,9 @@ func Gen(r *vh.Rng, tier string, emit func(op, impl, class string, nontrivial bo
 	<-evtDone
 	EmitEvt(evtScs, evtRes, emit)
 	Notes = append(Notes, evtNotes...)
+	<-hsDone
+	EmitHs(hsScs, hsRes, emit)
+	Notes = append(Notes, hsNotes...)
 	sort.Strings(Notes)
 	_ = fmt.Sprint
 }
